@@ -21,13 +21,18 @@ def gen_case(seed):
     src = SeedSource(seed)
     from vf.gen import DOMS, G
 
-    n = src.pick([1, 1, 1, 2, 3])
+    n = src.pick([1, 1, 1, 2, 3, 3])
     g = G(src, OPTS)  # one name registry for all parts (fresh names must not clash between parts)
     parts = []
     for _ in range(n):
         d = g.pick(DOMS)
         depth = g.rint((1, OPTS.max_depth))
         parts.append(g.expr(d, depth, set(g.sizes)))
+    if n >= 2 and src.pick([0, 0, 1]) == 1:
+        # the same (non-leaf) expression at two positions of the tuple, next to a different one
+        i, j = src.pick([(0, 1), (1, 0), (0, n - 1), (n - 1, 0)])
+        if i != j:
+            parts[j] = parts[i]
     parts = tuple(parts)
     return {"parts": parts, "mode": src.pick(MODES), "salt": src.pick(range(50))}
 
@@ -322,6 +327,30 @@ class C18(Prop):
         try:
             prog(**dict(kw, zz_extra=np.asarray(1.0)))
             raise Violation("unexpected-input-accepted", f"program accepted an unknown kwarg: {self.describe(case)}")
+        except Violation:
+            raise
+        except Exception:
+            pass
+        if len(kw) >= 2:
+            # a missing input that is not the first one (the earlier inputs have been consumed when the call fails)
+            missing = dict(kw)
+            missing.pop(sorted(kw)[-1])
+            try:
+                prog(**missing)
+                raise Violation("missing-input-accepted", f"program ran without {sorted(kw)[-1]}: {self.describe(case)}")
+            except Violation:
+                raise
+            except Exception:
+                pass
+        # a program is a value: rejected calls leave nothing behind, the next valid call (also of a copy pickled now)
+        # returns what the first one returned
+        try:
+            again = prog(**kw)
+        except Exception as ex:
+            raise Violation("program-broken-by-a-rejected-call", f"{type(ex).__name__}: {ex}: {self.describe(case)}")
+        compare(again, "after-rejected-calls")
+        try:
+            compare(pickle.loads(pickle.dumps(prog))(**kw), "pickled-after-rejected-calls")
         except Violation:
             raise
         except Exception:
